@@ -108,7 +108,9 @@ func (s *Scheme[F]) Reconstruct(shares ...*Share[F]) (secret *Secret[F], err err
 	if err != nil {
 		return nil, errs.Wrap(err).WithMessage("could not interpolate polynomial")
 	}
-	if poly.Degree() != s.accessStructure.Levels()[len(s.accessStructure.Levels())-1].Threshold()-1 {
+	// shares of a sum or multiple may lie on a polynomial of lower degree (e.g. 0*share); only a
+	// higher degree shows that the shares are inconsistent
+	if poly.Degree() > s.accessStructure.Levels()[len(s.accessStructure.Levels())-1].Threshold()-1 {
 		return nil, sharing.ErrMembership.WithMessage("reconstruction failed")
 	}
 	secretValue := poly.Coefficients()[0]
